@@ -153,3 +153,72 @@ Example C18_nonvacuous :
   map param_key (op_parameters good_schema good_service (nth 1 (sv_methods good_service) (rpc "" "" "" "" 0)))
   = [(s "header", s "x-tenant"); (s "header", s "x-trace"); (s "path", s "id")].
 Proof. exact good_is_good. Qed.
+
+(* ---- every reference of the document resolves (the full clause) ----------------------------------- *)
+From SebufProofs Require Import OpenApiRefsFacts.
+
+(* EVERY `$ref` and every discriminator mapping target of the document (operations, component schemas
+   of the five object-schema shapes, map entries, discriminator tables) names a component of the same
+   document.  Two side conditions say what protoc guarantees about a request and the Schema.v AST does
+   not enforce: message full names are unique, and no map key is a message.  The defect hypothesis of
+   C18_refs_resolve_full is not needed for this clause. *)
+Theorem C18_refs_resolve : forall sc sd sv st d,
+  unique_message_names sc = true -> scalar_map_keys sc = true ->
+  collect_service sc sd sv = Some st -> document_y sc sd sv = Some d -> cs_unknown st = [] ->
+  forall t, In t (refs_of d) -> ref_resolves (components_of_sets (cs_sets st)) t = true.
+Proof. exact refs_resolve_full. Qed.
+Print Assumptions C18_refs_resolve.
+
+(* the same under exactly the hypotheses of C18_refs_resolve_full *)
+Theorem C18_refs_resolve_good : forall sc sd sv st d,
+  unique_message_names sc = true -> scalar_map_keys sc = true ->
+  collect_service sc sd sv = Some st -> document_y sc sd sv = Some d ->
+  cs_unknown st = [] -> defects_C18 sc sd sv = [] ->
+  forall t, In t (refs_of d) -> ref_resolves (components_of_sets (cs_sets st)) t = true.
+Proof. exact refs_resolve_full_good. Qed.
+Print Assumptions C18_refs_resolve_good.
+
+(* C18_refs_resolve_full as first stated (no side condition) is false in the model *)
+Theorem C18_refs_resolve_full_refuted : ~ C18_refs_resolve_full.
+Proof. exact refs_resolve_unconditional_refuted. Qed.
+Print Assumptions C18_refs_resolve_full_refuted.
+
+(* a full name declared twice: the second declaration's schema is registered, its field types are not collected *)
+Example C18_refs_resolve_needs_unique_names :
+  unique_message_names dup_schema = false /\ scalar_map_keys dup_schema = true /\
+  defects_C18 dup_schema no_side dup_service = [] /\
+  exists st d, collect_service dup_schema no_side dup_service = Some st /\
+    document_y dup_schema no_side dup_service = Some d /\ cs_unknown st = [] /\
+    In (ref_prefix ++ s "Z") (refs_of d) /\
+    ref_resolves (components_of_sets (cs_sets st)) (ref_prefix ++ s "Z") = false.
+Proof. exact refs_resolve_needs_unique_names. Qed.
+
+(* a message as map key: the entry schema refers to it, the collection follows the value field only *)
+Example C18_refs_resolve_needs_scalar_map_keys :
+  unique_message_names mapkey_schema = true /\ scalar_map_keys mapkey_schema = false /\
+  defects_C18 mapkey_schema no_side dup_service = [] /\
+  exists st d, collect_service mapkey_schema no_side dup_service = Some st /\
+    document_y mapkey_schema no_side dup_service = Some d /\ cs_unknown st = [] /\
+    In (ref_prefix ++ s "K") (refs_of d) /\
+    ref_resolves (components_of_sets (cs_sets st)) (ref_prefix ++ s "K") = false.
+Proof. exact refs_resolve_needs_scalar_map_keys. Qed.
+
+(* the hypotheses hold on a schema with a recursive message with a nested declaration, a map of
+   messages and a Timestamp, a nested and a flattened discriminated oneof, a flatten field with prefix
+   and a root unwrap that is also a map value; its 30 references include variant components and
+   discriminator mapping targets *)
+Example C18_refs_resolve_nonvacuous :
+  unique_message_names refs_schema = true /\ scalar_map_keys refs_schema = true /\
+  defects_C18 refs_schema no_side refs_service = [] /\
+  exists st d, collect_service refs_schema no_side refs_service = Some st /\
+    document_y refs_schema no_side refs_service = Some d /\ cs_unknown st = [] /\
+    map fst (components_of_sets (cs_sets st))
+    = map s ["Error"; "FieldViolation"; "ValidationError"; "Req"; "GroupsEntry"; "Tree"; "AttrsEntry"; "Leaf"; "Timestamp";
+             "Event"; "Click"; "Scroll"; "Shape_circle"; "Shape_square"; "Shape"; "Circle"; "Point"; "Square";
+             "Wrapper"; "Meta"; "Owner"; "ItemList"; "Item"; "Resp"]%string /\
+    refs_of d
+    = map (fun n => ref_prefix ++ s n)
+          ["Req"; "Resp"; "ValidationError"; "Error"; "FieldViolation"; "Tree"; "Event"; "Shape"; "Wrapper"; "Item"; "ItemList";
+           "Tree"; "Leaf"; "Leaf"; "Leaf"; "Click"; "Scroll"; "Click"; "Scroll"; "Tree"; "Point";
+           "Shape_circle"; "Shape_square"; "Shape_circle"; "Shape_square"; "Point"; "Owner"; "Owner"; "Item"; "ItemList"]%string.
+Proof. exact refs_nonvacuous. Qed.
